@@ -248,6 +248,22 @@ func readAllMsgs(p *rtmp.Protocol, max int) ([]string, string) {
 	return got, status
 }
 
+// maskTs blanks the timestamp field of every message of a canonical message list.
+func maskTs(msgs string) string {
+	if msgs == "_" {
+		return msgs
+	}
+	ms := strings.Split(msgs, ",")
+	for i, m := range ms {
+		f := strings.Split(m, ".")
+		if len(f) == 5 {
+			f[3] = "*"
+			ms[i] = strings.Join(f, ".")
+		}
+	}
+	return strings.Join(ms, ",")
+}
+
 func joinMsgs(ms []string) string {
 	if len(ms) == 0 {
 		return "_"
@@ -316,6 +332,9 @@ func runConformant(c *h.Ctx, bucket string, g *gsender, mode int) specRep {
 		c.Hold(ok, "decode", in, h.Trunc(status+" "+got, 600), h.Trunc("err-eof "+s.msgs, 600))
 	} else {
 		c.Hold(ok, "decode.extts_delta", "K2 "+in, h.Trunc(status+" "+got, 600), h.Trunc("err-eof "+s.msgs, 600))
+		// the known deviation is confined to the timestamps: everything else must still be the spec's
+		c.Hold(maskTs(got) == maskTs(s.msgs) && status == "err-eof", "decode.extts_delta.rest", in,
+			h.Trunc(status+" "+maskTs(got), 600), h.Trunc("err-eof "+maskTs(s.msgs), 600))
 	}
 	if s.noExt {
 		// the reader has followed every Set Chunk Size
